@@ -168,7 +168,15 @@ func run(env *simrt.Env, sci interface{}) {
 	// "eventually": the filter is running; give it far more simulated time than any
 	// configured delay (its idle timer period is a minute)
 	env.Join(hs...)
-	env.Idle(10 * time.Minute)
+	// no quiet period can be demanded (the idle timer keeps firing) and stall faults eat
+	// simulated time, so "eventually" is: two hours pass without a single further forward
+	for {
+		n := len(got)
+		env.Idle(2 * time.Hour)
+		if len(got) == n || env.Failed() {
+			break
+		}
+	}
 	if env.Failed() {
 		return
 	}
@@ -215,7 +223,7 @@ func checkDelivery(env *simrt.Env, sc *scenario, sents []*sent, got []recvd, del
 			return false
 		}
 		if seen[s.id] == 0 {
-			env.Fail("C14/never-forwarded", "%s never forwarded datagram %d (%d of %d forwarded) although it kept running for 10 simulated minutes", what, s.id, len(got), len(sents))
+			env.Fail("C14/never-forwarded", "%s never forwarded datagram %d (%d of %d forwarded) although it kept running until nothing happened any more (routers: an hour of silence; delay filter: two hours without a forward)", what, s.id, len(got), len(sents))
 			return false
 		}
 	}
@@ -362,7 +370,9 @@ func runRouter(env *simrt.Env, sc *scenario) {
 		}))
 	}
 	env.Join(hs...)
-	env.Idle(10 * time.Minute)
+	// quiet for an hour: a router that was stalled inside a pass sleeps for as long as the pass
+	// took before it looks at its queue again, and stall faults (up to 40 s each) add up
+	env.QuiesceWithin(time.Hour)
 	if env.Failed() {
 		return
 	}
